@@ -194,7 +194,10 @@ TEMPLATES.append(fsm_template)
 # the replay builds it in an in-package test, calls the real method and compares with what the contract demands.
 PURE_TEST = r'''package @PKGNAME@
 
-import "testing"
+import (
+	"testing"
+@IMPORTS@
+)
 
 func TestVerifReplayPure(t *testing.T) {
 	recv := @AMP@@TYPE@{@FIELDS@}
@@ -229,7 +232,8 @@ def pure_template(prop, o, f, eng, run_dir):
     demanded = pr["demanded"]
     if pr["rtype"] not in ("bool", "int", "int64", "uint64"):
         demanded = "%s(%s)" % (pr["rtype"].rsplit("/", 1)[-1].split(".", 1)[-1] if pr["rtype"].startswith(pr["pkg"]) else pr["rtype"].rsplit("/", 1)[-1], demanded)
-    src = (PURE_TEST.replace("@PKGNAME@", pkgname).replace("@AMP@", "&" if pr["ptr"] else "").replace("@TYPE@", tname)
+    imps = "\n".join('\t%s "%s"' % (al, path) for path, al in sorted((pr.get("imports") or {}).items()))
+    src = (PURE_TEST.replace("@IMPORTS@", imps).replace("@PKGNAME@", pkgname).replace("@AMP@", "&" if pr["ptr"] else "").replace("@TYPE@", tname)
            .replace("@FIELDS@", ", ".join(pr["fields"])).replace("@METHOD@", pr["method"]).replace("@DEMANDED@", demanded)
            .replace("@OBL@", o["name"].replace('"', "'")))
     r = run_overlay(pkg_dir, "zz_verif_replay_test.go", src, "TestVerifReplayPure")
